@@ -6,8 +6,13 @@ for d in sorted(glob.glob('/verif/seeded/C*-*'), key=lambda x: (x.split('/')[-1]
     name = os.path.basename(d)
     meta = json.load(open(d + '/meta.json'))
     res = json.load(open(d + '/result.json')) if os.path.exists(d + '/result.json') else []
-    own = [r for r in res if r['property'] == meta['property']]
+    own_all = [r for r in res if r['property'] == meta['property']]
+    last = max((r.get('run', 0) for r in own_all), default=0)
+    own = [r for r in own_all if r.get('run', 0) == last]
+    earlier_missed = any(r['verdict'] == 'not-detected' for r in own_all if r.get('run', 0) != last)
     verdicts = ', '.join(f"seed {r['seed']}: {r['verdict']}" for r in own) or '-'
+    if earlier_missed:
+        verdicts += ' (missed before the checks were strengthened)'
     sig = next((r['signatures'][0] for r in own if r['signatures']), '')
     what = (meta.get('breaks') or '').replace('|', '/').replace('\n', ' ')
     what = what[:150] + ('…' if len(what) > 150 else '')
